@@ -1,5 +1,6 @@
 // rapidcheck front-end: pbt <id> [--n N] [--size S] [--seed X] [--stats file] [--emit dir] [--work dir]
 #include <rapidcheck.h>
+#include <unistd.h>
 #include <cstdio>
 #include <cstdlib>
 #include <cstring>
@@ -40,7 +41,7 @@ int main(int argc, char **argv) {
         rp << "seed=" << seed << " max_success=" << n << " max_size=" << size << " max_discard_ratio=20";
         setenv("RC_PARAMS", rp.str().c_str(), 1);
     }
-    const std::string curPath = ctx.scratch + "/current.case", failPath = workDir + "/" + id + ".last_fail.case";
+    const std::string curPath = ctx.scratch + "/current.case", failPath = workDir + "/" + id + "." + std::to_string(getpid()) + ".last_fail.case";
     remove(failPath.c_str());
     long long evaluations = 0, discards = 0, emitted = 0;
     std::set<uint64_t> ntKeys; std::map<std::string, long long> tags, known, counters;
